@@ -146,9 +146,9 @@ package mem
 //                           (6) otherwise the newcomer;
 //                           whenever an old entry is dropped the newcomer is appended.
 //@ spec func isQueued(q *Queue, e *list.Element) bool = inList(q.l, e) && q.current != nil && e.$pos >= q.current.$pos
-//@ spec func candQ(q *Queue, e *list.Element) bool = isQueued(q, e) && idOf(e) == 0
+//@ spec func candQ(q *Queue, e *list.Element) bool = isQueued(q, e) && isPub(e) && idOf(e) == 0
 //@ spec func expQ(q *Queue, e *list.Element, now time.Time) bool = candQ(q, e) && expiredAt(elemOf(e), now)
-//@ spec func zeroQ(q *Queue, e *list.Element) bool = isQueued(q, e) && idOf(e) == 0 && pubOf(e).Message.QoS == 0
+//@ spec func zeroQ(q *Queue, e *list.Element) bool = candQ(q, e) && pubOf(e).Message.QoS == 0
 //@ spec func newElemOK(q *Queue, x *queue.Elem) bool = x != nil && x.MessageWithID.(type *queue.Publish) && x.MessageWithID.(*queue.Publish) != nil && pubMsg(x) != nil && (forall e *list.Element :: inList(q.l, e) ==> elemOf(e) != x && (isPub(e) ==> pubOf(e) != x.MessageWithID.(*queue.Publish) && pubOf(e).Message != pubMsg(x)))
 
 //@ func (*Queue).Add
